@@ -105,6 +105,9 @@ func (r *Run) Thorough() bool { return r.Tier == "thorough" }
 // Deadline returns the internal deadline for this tier (never an oracle: hitting
 // it ends the run with exhaustive=false and exit 0).
 func (r *Run) Deadline(quick, thorough time.Duration) time.Time {
+	if s, err := strconv.Atoi(os.Getenv("VERIF_DEADLINE_S")); err == nil && s > 0 {
+		return r.start.Add(time.Duration(s) * time.Second) // experiments only
+	}
 	if r.Thorough() {
 		return r.start.Add(thorough)
 	}
